@@ -6,14 +6,6 @@ import (
 	"github.com/flowmatters/openwater-core/zzverif/vsym"
 )
 
-// c01ints_ELEMTYPE: n fresh symbolic ints
-func c01ints_ELEMTYPE(tag string, n int) []int {
-	r := make([]int, n)
-	for i := 0; i < n; i++ {
-		r[i] = vsym.Int(tag + string(rune('0'+i)))
-	}
-	return r
-}
 
 // c01view_ELEMTYPE builds an arbitrary member of the family of views reachable from a
 // root array by slicing: root extents od, per-axis origin o, extents dims, accumulated step st.
